@@ -7,8 +7,10 @@ import (
 	"path/filepath"
 	"sort"
 	"strings"
+	"syscall"
 	"testing/synctest"
 	"time"
+	"unsafe"
 
 	"github.com/flant/kube-client/fake"
 	kubeeventsmanager "github.com/flant/shell-operator/pkg/kube_events_manager"
@@ -196,4 +198,11 @@ func (s *Sys) drain() {
 		time.Sleep(500 * time.Millisecond)
 	}
 	synctest.Wait()
+}
+
+// MonoNs reads CLOCK_MONOTONIC (system-wide, not the bubble's fake clock).
+func MonoNs() int64 {
+	var ts syscall.Timespec
+	_, _, _ = syscall.Syscall(syscall.SYS_CLOCK_GETTIME, 1, uintptr(unsafe.Pointer(&ts)), 0)
+	return ts.Sec*1e9 + ts.Nsec
 }
